@@ -380,6 +380,9 @@ def pools(tier="quick"):
     P["output order (hyper, 2 tensors)"] = [mkspec((("a", "b"), ("a", "b")), o, S, "greedy") for o in (("a", "b"), ("b", "a"), ("a",), ("b",))]
     P["one size"] = [mkspec(ins, out, {"a": 3, "b": bb, "c": 3, "d": 3}, opt) for opt in ("optimal",) for bb in (2, 4, 3)]
     P["one size (greedy)"] = [mkspec(ins, out, {"a": 3, "b": bb, "c": 3, "d": 3}, "greedy") for bb in (2, 4, 5)]
+    # same terms, same sequence of size VALUES, different label -> size assignment (only the dict order differs)
+    P["size_dict key order"] = [mkspec(ins, out, sz, o) for o in ("optimal", "greedy") for sz in (
+        {"a": 2, "b": 7, "c": 2, "d": 7}, {"b": 2, "a": 7, "d": 2, "c": 7}, {"d": 7, "c": 2, "b": 7, "a": 2})]
     P["optimize preset"] = [mkspec(ins, out, {"a": 3, "b": 2, "c": 3, "d": 3}, o) for o in ("greedy", "optimal", "auto", "auto-hq")]
     p1 = ((0, 1), (0, 1))
     P["explicit path containers"] = [
